@@ -203,6 +203,8 @@ def apply_chain_lib(F, chain):
                 kw["polarity_flips"] = "fixed"
             if "--no-clauses-permutation" in t:
                 kw["clauses_permutation"] = "fixed"
+            if "--no-variables-permutation" in t:
+                kw["variables_permutation"] = "fixed"
             F = g.Shuffle(F, **kw)
         else:
             f2 = {"atleast": g.AtLeastKSubstitution, "atmost": g.AtMostKSubstitution, "exact": g.ExactlyKSubstitution,
@@ -658,14 +660,28 @@ def case_interleave(ctx, rseed, count):
                     ctx.call(F.update_variable_number, n + r.choice([0, 0, 2, 5]) - r.choice([0, 0, 1]))
                 elif op == "variable":
                     ctx.call(F.new_variable, "v")
-                elif op == "block":
-                    ctx.call(F.new_block, *[r.randint(0, 3) for _ in range(r.randint(1, 3))])
-                elif op == "comb":
-                    ctx.call(F.new_combinations, r.randint(0, 4), r.randint(0, 3))
-                elif op == "perm":
-                    ctx.call(F.new_permutations, r.randint(0, 4), r.randint(0, 2))
-                elif op == "words":
-                    ctx.call(F.new_words, r.randint(0, 3), r.randint(0, 2))
+                elif op in ("block", "comb", "perm", "words"):
+                    # the documented sizes: product of the ranges, C(n,k), n!/(n-k)!, n^k (one variable for k = 0)
+                    if op == "block":
+                        dims = [r.randint(0, 3) for _ in range(r.randint(1, 3))]
+                        st_, _g = ctx.call(F.new_block, *dims)
+                        want = math.prod(dims)
+                        what = "new_block%r" % (tuple(dims),)
+                    else:
+                        a_, b_ = r.randint(0, 4), r.randint(0, 3 if op == "comb" else 2)
+                        if op == "perm" and r.random() < 0.25:
+                            st_, _g = ctx.call(F.new_permutations, a_)
+                            b_ = a_
+                        else:
+                            st_, _g = ctx.call({"comb": F.new_combinations, "perm": F.new_permutations, "words": F.new_words}[op], a_, b_)
+                        want = {"comb": math.comb(a_, b_), "perm": math.perm(a_, b_) if b_ <= a_ else 0, "words": a_ ** b_}[op]
+                        what = "new_%s(%d,%d)" % ({"comb": "combinations", "perm": "permutations", "words": "words"}[op], a_, b_)
+                    hist[-1] = what
+                    if st_ == "ok":
+                        ctx.count("group_sizes_against_closed_forms")
+                        if F.number_of_variables() - n != want:
+                            ctx.violation("count:group-size", "history %r: %s added %d variables, documented %d"
+                                          % (hist, what, F.number_of_variables() - n, want))
                 elif op in ("bip", "mapping") and r.random() < 0.3:
                     # a bipartite graph of a user class: left vertices of degree up to 70, neighbours in the class's own order
                     from ..ducks import computed_bipartite
@@ -721,7 +737,9 @@ def case_interleave(ctx, rseed, count):
         report(ctx, "history %r on %s" % (hist, K.__name__), mon, F)
         if K is CNF and F.number_of_variables() <= 40 and len(F) <= 30 and max([len(c) for c in F] or [0]) <= 3:
             # a formula with such a history is a legitimate input of every transformation
-            chain = [r.choice([["xor", "2"], ["or", "2"], ["lift", "2"], ["ite"], ["flip"], ["shuffle"], ["one", "2"]])]
+            chain = [r.choice([["xor", "2"], ["or", "2"], ["lift", "2"], ["ite"], ["flip"], ["shuffle"], ["one", "2"],
+                               ["shuffle", "--no-polarity-flips", "--no-variables-permutation", "--no-clauses-permutation"],
+                               ["shuffle", "--no-variables-permutation"], ["shuffle", "--no-polarity-flips", "--no-variables-permutation"]])]
             n_exp = chain_count(F.number_of_variables(), chain)
             with alloc.watch() as mon2:
                 st, T = ctx.call(apply_chain_lib, F, chain)
